@@ -44,6 +44,7 @@ def setup(ctx):
     ctx.require("monitor", "defective_imports", 100)
     ctx.require("monitor", "roundtrip_hosts", 60)
     ctx.require("monitor", "syscall_injections", 10)
+    ctx.require("monitor", "failed_then_next_sequences", 40)
     ctx.require("monitor", "roundtrip_hosts_with_later_last_seen", 20)
     ctx.require("monitor", "outcome_before", 50)
     ctx.require("monitor", "outcome_after", 27)
@@ -196,21 +197,27 @@ def make_ops(tmp, nstore):
     return ops
 
 
-def run_op_plain(dbpath, op):
+def make_db(dbpath):
+    """A TOFUDatabase handle on an existing file, built the normal way (before any injector is installed)."""
+    from pathlib import Path
+
     from nauyaca.security.tofu import TOFUDatabase
 
-    db = TOFUDatabase.__new__(TOFUDatabase)
-    db.db_path = dbpath
-    return op(db)
+    return TOFUDatabase(Path(dbpath))
+
+
+def run_op_plain(dbpath, op, db=None):
+    return op(db if db is not None else make_db(dbpath))
 
 
 def count_boundaries(dbpath, op):
     work = dbpath + ".count"
     shutil.copy(dbpath, work)
+    db = make_db(work)
     inj = Injector()
     inj.install()
     try:
-        run_op_plain(work, op)
+        run_op_plain(work, op, db)
     except Exception:
         pass
     finally:
@@ -238,12 +245,13 @@ def enumerate_faults(ctx, tmp, nstore, name, mode, op):
             shutil.copy(dbpath, work)
             raised = None
             if kind == "crash":
+                db = make_db(work)
                 pid = os.fork()
                 if pid == 0:
                     try:
                         inj = Injector(at=k, mode="crash")
                         inj.install()
-                        run_op_plain(work, op)
+                        run_op_plain(work, op, db)
                     except BaseException:
                         os._exit(3)
                     os._exit(0)
@@ -253,10 +261,11 @@ def enumerate_faults(ctx, tmp, nstore, name, mode, op):
                     ctx.anomaly(f"crash child exit {code} instead of 137 ({name})")
                 ctx.count("monitor", "crash_points")
             else:
+                db = make_db(work)
                 inj = Injector(at=k, mode="error")
                 inj.install()
                 try:
-                    run_op_plain(work, op)
+                    run_op_plain(work, op, db)
                 except sqlite3.OperationalError as e:
                     raised = repr(e)
                 except Exception as e:  # noqa: BLE001
@@ -430,6 +439,76 @@ def run_defective(ctx, tmp, nstore):
             ctx.case(("io", kind, mode, nstore), True, sample={"defect": kind, "mode": mode, "raised": raised})
 
 
+# --------------------------------------------------------------------------- failed operation, then the next one on the same handle
+
+
+def run_failed_then_next(ctx, tmp):
+    """A failed import must leave nothing behind that a LATER operation through the same TOFUDatabase
+    object makes permanent (uncommitted statements on a shared connection, cached state, ...)."""
+    from pathlib import Path
+
+    nexts = [
+        ("verify-match", lambda db: db.verify(HOSTS[0], 1965, cert_obj(0)[0])),
+        ("trust-new", lambda db: db.trust("later.example", 1965, cert_obj(1)[0])),
+        ("revoke-other", lambda db: db.revoke(HOSTS[1], 1966)),
+        ("list-only", lambda db: db.list_hosts()),
+        ("import-ok", None),
+    ]
+    nstore = 3
+    for defect in ("missing-port", "fingerprint-short", "conflict-callback-raises", "entry-not-table", "port-big"):
+        for pos in (1, 2):
+            for merge in (True, False):
+                for nname, nop in nexts:
+                    dbpath = os.path.join(tmp, "ftn.db")
+                    refpath = os.path.join(tmp, "ftn-ref.db")
+                    for pth in (dbpath, refpath):
+                        if os.path.exists(pth):
+                            os.unlink(pth)
+                    seed_store(dbpath, nstore)
+                    shutil.copy(dbpath, refpath)
+                    before = dump(dbpath)
+                    entries, cb = defective_entries(defect, pos, 3, nstore)
+                    f = os.path.join(tmp, "ftn.toml")
+                    try:
+                        write_import(f, entries)
+                    except Exception:
+                        continue
+                    f_ok = os.path.join(tmp, "ftn-ok.toml")
+                    write_import(f_ok, [good_entry("fresh.example", 1965, 2)])
+                    if nop is None:
+                        nop = lambda db: db.import_toml(Path(f_ok), merge=True)  # noqa: E731
+
+                    def on_conflict(*a):
+                        if cb == "raise":
+                            raise RuntimeError("conflict callback failed")
+                        return True
+
+                    db = make_db(dbpath)
+                    raised = None
+                    try:
+                        db.import_toml(Path(f), merge=merge, on_conflict=on_conflict)
+                    except Exception as e:  # noqa: BLE001
+                        raised = repr(e)[:120]
+                    if raised is None:
+                        ctx.undecided("failed-then-next:import-did-not-fail")
+                        continue
+                    try:
+                        nop(db)
+                    except Exception as e:  # noqa: BLE001
+                        ctx.violation(f"later-operation-broken:after-failed-import:next={nname}", f"after a failed import the next operation on the same store object raised {e!r}", {"defect": defect, "mode": "merge" if merge else "replace"})
+                        continue
+                    nop(make_db(refpath))  # the same second operation on an untouched copy
+                    got = normalise(dump(dbpath), before)
+                    exp = normalise(dump(refpath), before)
+                    ctx.count("monitor", "failed_then_next_sequences")
+                    mode = "merge" if merge else "replace"
+                    if got != exp:
+                        ctx.violation(f"partial-state:op=import:mode={mode}:injection=defect-then-{nname}",
+                                      f"a failed import ({defect}) followed by {nname} on the same store object left {len(got)} rows, the second operation alone gives {len(exp)}",
+                                      {"defect": defect, "position": pos, "mode": mode, "next": nname, "raised": raised, "before": before, "observed": got, "expected": exp})
+                    ctx.case(("failed-then-next", defect, pos, mode, nname, got == exp), True, sample={"defect": defect, "mode": mode, "next": nname, "rows": len(got)})
+
+
 # --------------------------------------------------------------------------- round trip
 
 NAME_PARTS = ["example.org", "::1", "[::1]", "2001:db8::1", "a.b.c", "x:y", 'q"uote', "back\\slash", "ha#sh", "eq=uals", "[br]", "new\nline", "tab\there",
@@ -601,6 +680,8 @@ def run(ctx):
         for i, nstore in enumerate((0, 2, 5)):
             if ctx.mine(i):
                 run_defective(ctx, tmp, nstore)
+        if ctx.mine(7):
+            run_failed_then_next(ctx, tmp)
         run_roundtrip(ctx, tmp, rng)
         run_strace(ctx, tmp)
     finally:
